@@ -71,6 +71,39 @@ def val(name):
     return CTX.values[name]
 
 
+def prop(name, p):
+    """Current value of property p of the most recently created simulation object with
+    the given name (None before it exists)."""
+    sim = CTX.sim
+    if sim is None:
+        return None
+    for obj in reversed(sim.objects):
+        if getattr(obj, "name", None) == name:
+            return getattr(obj, p, None)
+    return None
+
+
+def ftab(site, k):
+    """Condition with a fault point inside its evaluation."""
+    fault(site)
+    return tab(k)
+
+
+def _make_fspec():
+    from scenic.core.distributions import distributionFunction
+
+    @distributionFunction
+    def fspec(x):
+        """Value computed at sampling time, with a fault point inside."""
+        fault("spec")
+        return 1
+
+    return fspec
+
+
+fspec = _make_fspec()
+
+
 def grej(k):
     """Guard helper: a guard whose evaluation raises a rejection when table k is false."""
     from scenic.core.distributions import RejectionException
